@@ -153,7 +153,10 @@ func (s *objectStore) flush(db *DB) (err error) {
 }
 
 type DB struct {
-	l       sync.RWMutex
+	l sync.RWMutex
+	// sl serializes the lazy loading of schemas (and the start of their
+	// flushing routine) done by calls which only hold the read lock
+	sl      sync.Mutex
 	ctx     context.Context
 	cancel  context.CancelFunc
 	root    string
@@ -281,6 +284,9 @@ func (db *DB) safeAsyncState(s *Schema) (n int, async *Async) {
 
 func (db *DB) schema(of Object) (s *Schema, err error) {
 	var ok bool
+
+	db.sl.Lock()
+	defer db.sl.Unlock()
 
 	if s, ok = db.schemas[stype(of)]; ok {
 		db.startAsyncWritesRoutine(s)
